@@ -156,6 +156,12 @@ def check_case(case: dict[str, Any], col: common.Collector) -> None:
             col.histo("skipped", "refeval-disagrees-with-shadow")
             col.case()
             return
+    if reflect.conflated_groups(g):
+        # e.g. x + 0.0 next to x + -0.0: one node for pytato (C04 known finding), so checking
+        # mappers refuse the graph
+        col.histo("skipped", "pytato-equal-distinct-nodes")
+        col.case()
+        return
     scale = magnitude(spec, vset)
     einsums = [n for n in reflect.walk(g) if isinstance(n, pt.Einsum)]
     col.histo("n_einsums", str(min(len(einsums), 5)))
